@@ -15,10 +15,13 @@ package c14
 import (
 	"fmt"
 	"math/rand"
+	"runtime"
 	"runtime/debug"
 	"strings"
 	"testing"
 	"time"
+
+	"pgregory.net/rapid"
 
 	"github.com/form3tech-oss/f1/v2/internal/trigger/api"
 	"github.com/form3tech-oss/f1/v2/verifharness/vlib"
@@ -32,15 +35,16 @@ func TestMain(m *testing.M) { vlib.Main(m, stats) }
 // active only while the id is listed as "open" in /verif/known_findings.json
 // (or the file named by VERIF_KNOWN); otherwise the check stays strict.
 const (
-	kRateEmptyUnit   = "F4a-rate-empty-unit-panics"         // ParseRate("N/") slices an empty string
-	kRateDotUnit     = "F4b-rate-leading-dot-unit-misread"  // "N/.5s" is read as N per 1.5s
-	kRateZeroUnit    = "F4c-rate-zero-unit-accepted"        // "N/0s" accepted, tick interval 0
-	kCfgJitter       = "F5a-config-missing-jitter-nil-deref" // stage and default both without jitter
-	kCfgConcurrency  = "F5b-config-concurrency-not-positive" // limits / users-stage concurrency <= 0 accepted
-	kFreqNotPositive = "F6a-iteration-frequency-not-positive" // staged / gaussian iteration-frequency <= 0 accepted
-	kGaussCovered    = "F6b-gaussian-no-covered-mass"        // CDF(repeat-frequency)-CDF(0) <= 0: MinInt64 / negative requests
-	kNegStageTarget  = "F11-staged-negative-target-accepted" // "1s:-5" accepted: negative requests, rand.Intn panic with random distribution
-	kGaussNegScale   = "F12-gaussian-volume-or-weights-not-validated" // volume < 0, a weight < 0 or not finite, or all-zero weights accepted
+	kRateEmptyUnit   = "C14-F4a-rate-empty-unit-panics"                  // ParseRate("N/") slices an empty string
+	kRateDotUnit     = "C14-F4b-rate-leading-dot-unit-misread"           // "N/.5s" is read as N per 1.5s
+	kRateZeroUnit    = "C14-F4c-rate-zero-unit-accepted"                 // "N/0s" accepted, tick interval 0
+	kCfgJitter       = "C14-F5a-config-missing-jitter-nil-deref"         // stage and default both without jitter
+	kCfgConcurrency  = "C14-F5b-config-concurrency-not-positive"         // limits / default / users-stage concurrency <= 0 accepted
+	kFreqNotPositive = "C14-F6a-iteration-frequency-not-positive"        // iteration-frequency <= 0 accepted (staged; gaussian until 8eb0748)
+	kGaussCovered    = "C14-F6b-gaussian-no-covered-mass"                // covered mass CDF(repeat-frequency)-CDF(0) <= 0, or so small (or stddev so narrow) that the request at the peak overflows int: MinInt64 requests
+	kNegStageTarget  = "C14-N1-staged-negative-target-accepted"          // "1s:-5" accepted: negative requests, rand.Intn panic behind the random distribution
+	kGaussNegScale   = "C14-N2-gaussian-volume-or-weights-not-validated" // volume < 0, a weight < 0 or not finite, or all-zero weights accepted
+	kNonFinite       = "C14-N3-config-non-finite-float-accepted"         // jitter / volume .nan or .inf in a config file accepted: MinInt64 requests
 )
 
 // failer is satisfied by *testing.T, *rapid.T and *testing.F's T.
@@ -66,18 +70,22 @@ func settle(f failer, known []string, violation string) {
 	f.Fatalf("VERIF-VIOLATION C14: %s", violation)
 }
 
-// panicSite extracts "file:line" of the innermost non-runtime frame below the
-// panic from the current goroutine's stack (called inside a deferred recover).
+// panicSite extracts the frame that caused a panic from the current
+// goroutine's stack (called inside a deferred recover): the innermost frame
+// below the panic that is neither the Go runtime nor the standard library,
+// prefixed by the standard-library function that panicked, if any.
 func panicSite() string {
 	lines := strings.Split(string(debug.Stack()), "\n")
+	goroot := runtime.GOROOT()
 	seenPanic := false
+	via := ""
 	for i := 0; i+1 < len(lines); i++ {
 		l := lines[i]
 		if strings.HasPrefix(l, "panic(") {
 			seenPanic = true
 			continue
 		}
-		if !seenPanic || strings.HasPrefix(l, "\t") {
+		if !seenPanic || strings.HasPrefix(l, "\t") || !strings.HasPrefix(lines[i+1], "\t") {
 			continue
 		}
 		if strings.HasPrefix(l, "runtime.") || strings.HasPrefix(l, "runtime/") {
@@ -87,6 +95,19 @@ func panicSite() string {
 		if j := strings.Index(loc, " +0x"); j > 0 {
 			loc = loc[:j]
 		}
+		fn := l
+		if j := strings.LastIndex(fn, "("); j > 0 {
+			fn = fn[:j]
+		}
+		if j := strings.LastIndex(fn, "/"); j >= 0 {
+			fn = fn[j+1:]
+		}
+		if (goroot != "" && strings.HasPrefix(loc, goroot)) || strings.Contains(loc, "/src/") && !strings.Contains(loc, "/internal/trigger") {
+			if via == "" {
+				via = fn
+			}
+			continue
+		}
 		// keep the path relative to the module for readability
 		for _, marker := range []string{"/internal/", "/pkg/"} {
 			if j := strings.LastIndex(loc, marker); j >= 0 {
@@ -94,12 +115,8 @@ func panicSite() string {
 				break
 			}
 		}
-		fn := l
-		if j := strings.LastIndex(fn, "("); j > 0 {
-			fn = fn[:j]
-		}
-		if j := strings.LastIndex(fn, "/"); j >= 0 {
-			fn = fn[j+1:]
+		if via != "" {
+			return loc + " in " + fn + " calling " + via
 		}
 		return loc + " in " + fn
 	}
@@ -180,6 +197,38 @@ func runnable(what string, interval time.Duration, fn api.RateFunction, at []tim
 // oracle holds for every stream; this only affects reproducibility.
 func seedGlobalRand(seed int64) {
 	rand.Seed(seed) //nolint:staticcheck // deliberate: effective for go <= 1.23 main modules
+}
+
+// rapid's IntRange / SampledFrom are strongly biased towards small values
+// (index 0 is drawn ~10x as often as index 50 of 100). Shape and pool choices
+// use these helpers instead: inside the binade [1,2) rapid draws the
+// significand uniformly except for an atom at the lower end, which is redrawn.
+var binade = rapid.Float64Range(1, 2)
+
+func unit01(t *rapid.T, label string) float64 {
+	for i := 0; i < 6; i++ {
+		if x := binade.Draw(t, label); x != 1 && x < 2 {
+			return x - 1
+		}
+	}
+	return 0
+}
+
+// unif draws uniformly from 0..n-1 (shrinks towards 0).
+func unif(t *rapid.T, label string, n int) int {
+	if n <= 1 {
+		return 0
+	}
+	v := int(unit01(t, label) * float64(n))
+	if v >= n {
+		v = n - 1
+	}
+	return v
+}
+
+// pick draws uniformly from a pool (shrinks towards the first element).
+func pick[T any](t *rapid.T, label string, pool []T) T {
+	return pool[unif(t, label, len(pool))]
 }
 
 var documentedDistributions = map[string]bool{"none": true, "regular": true, "random": true}
